@@ -14,7 +14,7 @@ BASE = {
 
 
 def models(tier):
-    ready = [("m", 0, n) for n in ("req", "dwr", "dwa", "dpr", "dpa", "req_missing", "req_unkapp", "req_foreign", "unkcmd", "untyped",
+    ready = [("m", 0, n) for n in ("req", "req_big", "dwr", "dwa", "dpr", "dpa", "req_missing", "req_unkapp", "req_foreign", "unkcmd", "untyped",
                                    "ans_unknown", "ans_nohost", "ans_norc", "dwa_nohost", "dwa_norc",
                                    "dwr_e2e0", "dwr_hbh0", "req_e2e0", "ans_T_replay")]
     ready += [("ans", 0), ("ans", 1), ("ans2", 0), ("tick", 2)]
